@@ -225,6 +225,37 @@ func init() {
 					d := map[string]interface{}{"cloner": cl.name, "rpc": "unary", "context_cancelled_before_call": cancelled, "request_read_after_return": late}
 					o.Case("late_read_"+cl.name, fmt.Sprintf("Late %d %s %s", ci, hx.B(cancelled), hx.B(late)), d)
 				}
+				// ---------- nor write the caller's response after an abandoned unary call returned ----------
+				{
+					lch := &inprocgrpc.Channel{}
+					if c := cl.mk(); c != nil {
+						lch.WithCloner(c)
+					}
+					started, release, finished := make(chan struct{}), make(chan struct{}), make(chan struct{})
+					lch.RegisterService(hx.Desc(hx.SvcName), &hx.Svc{Unary: func(ctx context.Context, req *hx.Msg) (*hx.Msg, error) {
+						defer close(finished)
+						close(started)
+						<-release
+						return &hx.Msg{Count: 4242, Payload: []byte("late answer")}, nil
+					}})
+					resp := &hx.Msg{Count: 1, Payload: []byte("caller's own")}
+					ctx, cancel := context.WithCancel(context.Background())
+					go func() { <-started; cancel() }()
+					err := lch.Invoke(ctx, "/verif.Svc/U", mkMsg(false), resp)
+					snap := proto.Clone(resp)
+					close(release)
+					select {
+					case <-finished:
+					case <-time.After(2 * time.Second):
+					}
+					written := false
+					for k := 0; k < 20 && !written; k++ { // the server goroutine's work after the handler returned
+						time.Sleep(2 * time.Millisecond)
+						written = !proto.Equal(resp, snap)
+					}
+					d := map[string]interface{}{"cloner": cl.name, "rpc": "unary, cancelled while the handler runs; the handler answers afterwards", "invoke_error": fmt.Sprint(err), "response_written_after_return": written}
+					o.Case("late_write_"+cl.name, fmt.Sprintf("LateWrite %d %s %s", ci, hx.B(err != nil), hx.B(written)), d)
+				}
 			}
 		}
 		o.Finding = "finding_case"
